@@ -3003,3 +3003,73 @@ func (ff *FuncFacts) edgeVariants(st *State, cond ast.Expr, pol bool) []*State {
 	}
 	return out
 }
+
+// MustFlag runs a forward must-dataflow of one boolean over the CFG: the flag
+// becomes true after a node for which gen holds, false after one for which
+// kill holds (kill is tested first, then gen), is false at the entry, and is
+// the conjunction over live predecessors at joins.  The returned function
+// gives the flag immediately before the CFG node containing n.
+func (ff *FuncFacts) MustFlag(gen, kill func(n ast.Node) bool) func(n ast.Node) bool {
+	in := map[*cfg.Block]bool{}
+	out := map[*cfg.Block]bool{}
+	blocks := ff.graph.Blocks
+	if len(blocks) == 0 {
+		return func(ast.Node) bool { return false }
+	}
+	for _, b := range blocks {
+		in[b], out[b] = true, true
+	}
+	preds := map[*cfg.Block][]*cfg.Block{}
+	for _, b := range blocks {
+		if !b.Live {
+			continue
+		}
+		for _, s := range b.Succs {
+			preds[s] = append(preds[s], b)
+		}
+	}
+	step := func(b *cfg.Block, v bool, upto int) bool {
+		for i, n := range b.Nodes {
+			if i >= upto {
+				break
+			}
+			if kill(n) {
+				v = false
+			}
+			if gen(n) {
+				v = true
+			}
+		}
+		return v
+	}
+	for changed := true; changed; {
+		changed = false
+		for bi, b := range blocks {
+			if !b.Live {
+				continue
+			}
+			v := true
+			if bi == 0 {
+				v = false
+			}
+			for _, pb := range preds[b] {
+				v = v && out[pb]
+			}
+			if bi != 0 && len(preds[b]) == 0 {
+				v = false
+			}
+			o := step(b, v, len(b.Nodes))
+			if v != in[b] || o != out[b] {
+				in[b], out[b] = v, o
+				changed = true
+			}
+		}
+	}
+	return func(n ast.Node) bool {
+		b, i := ff.blockOf(n)
+		if b == nil {
+			return false
+		}
+		return step(b, in[b], i)
+	}
+}
